@@ -817,6 +817,11 @@ func main() {
 		tr := genIn(r, "p2wsh", 0, 2)
 		tr.Dep, tr.Redeem = nil, "truncated"
 		run(input{Keys: keys, Ins: []inSpec{tr}, Outs: outs, Sigs: goodSigs([]inSpec{tr})}, em, "corpus-unparsable-redeem")
+		// regression: a raw UTXO script ending in OP_PUSHDATA4 with a declared length of 2^31 bytes
+		// (the model must compare that length as a binary number)
+		hp := genIn(r, "p2wsh", 0, 2)
+		hp.Kind, hp.Raw = "raw", "610e38f2bc6ec600f5ac7519fb9d6634644e12b0977dffb0f9"
+		run(input{Keys: keys, Ins: []inSpec{all[3], hp}, Outs: outs, Sigs: goodSigs([]inSpec{all[3], hp}), Wallet: true}, em, "corpus-huge-pushdata4-length")
 	}
 
 	// --- exhaustive small scope: every ordered mix of the four kinds with 1..3 inputs (wallet key)
